@@ -50,6 +50,17 @@ fn main() {
             let mut r = BigBedRead::open(Cursor::new(bytes)).unwrap();
             println!("summary {:?}", r.get_summary().unwrap());
         }
+        "bbsum2" => {
+            let bytes = write_bb(vec![("chr1",e(0,10)),("chr1",e(0,10)),("chr2",e(5,5))], &[("chr1",2000),("chr2",2000)], |w|{ w.options.compress=false; w.options.manual_zoom_sizes=Some(vec![]);});
+            let mut r = BigBedRead::open(Cursor::new(bytes)).unwrap();
+            println!("two chroms, second only zero-length: summary {:?}", r.get_summary().unwrap());
+            let bytes = write_bb(vec![("chr1",e(0,10)),("chr1",e(0,10))], &[("chr1",2000),("chr2",2000)], |w|{ w.options.compress=false; w.options.manual_zoom_sizes=Some(vec![]);});
+            let mut r = BigBedRead::open(Cursor::new(bytes)).unwrap();
+            println!("first chrom alone: summary {:?}", r.get_summary().unwrap());
+            let bytes = write_bb(vec![("chr1",e(5,5)),("chr2",e(0,10)),("chr2",e(0,10)),("chr3",e(7,7))], &[("chr1",2000),("chr2",2000),("chr3",2000)], |w|{ w.options.compress=false; w.options.manual_zoom_sizes=Some(vec![]);});
+            let mut r = BigBedRead::open(Cursor::new(bytes)).unwrap();
+            println!("zero-length-only chroms first and last: summary {:?}", r.get_summary().unwrap());
+        }
         "zerolen" => {
             let bytes = write_bw(vec![("chr1",Value{start:5,end:5,value:1.0})], &[("chr1",1000)], |_w|{});
             println!("wrote {} bytes", bytes.len());
